@@ -1,6 +1,7 @@
 import GormModel.Drv.Util
 import GormModel.Model.WriteSet
 import GormModel.Model.FieldZero
+import GormModel.Model.ChainRows
 open Lean
 namespace Gorm.Drv
 open Gorm.WriteSet
@@ -174,6 +175,18 @@ def handleC10 (op : String) (args : Array Json) : Option Json := do
   | "c10.delcondsO" =>
     let o ← c10SchemaO? (arg args 1)
     some (c10NamesJ (deleteCondsO o (← c10Names? (arg args 2)) (← c10Names? (arg args 3)) (← jBool? (arg args 4))))
+  | "c10.chainsel" =>
+    -- [groupFirst, softScoped, rows = [[terms = [[isOr, value]…], key, live]…]] -> per row [selected, targeted]
+    let gf ← jBool? (arg args 1)
+    let soft ← jBool? (arg args 2)
+    let rows ← (← jArr? (arg args 3)).toList.mapM fun r => do
+      let a ← jArr? r
+      let ts ← (← jArr? (arg a 0)).toList.mapM fun t => do
+        let p ← jArr? t
+        some ((← jBool? (arg p 0)), (← jBool? (arg p 1)))
+      some (ts, (← jBool? (arg a 1)), (← jBool? (arg a 2)))
+    some (Json.arr (rows.map fun (ts, key, live) =>
+      Json.arr #[Json.bool (Gorm.ChainRows.selected gf soft ts key live), Json.bool (Gorm.ChainRows.targeted soft ts key live)]).toArray)
   | "c10.saverow" =>
     some (Json.bool (saveWritesRow (← jBool? (arg args 1)) (← jBool? (arg args 2)) (← jBool? (arg args 3))))
   | "c10.kzero" =>
